@@ -162,98 +162,122 @@ def bodyOf (rest : Bytes) : Bytes :=
   | none => []
   | some (n, r) => r.take n.toNat
 
-/-- Every defect of a command instance (`ps` = the split line, `rest` = the bytes after it), each
-judged on its own. -/
-def defects (conf : Conf) (s : ConnState) (ps : List Bytes) (rest : Bytes) : List Defect :=
-  let c := classify (ps.headD [])
-  (if c = .unknown then [.unknownCommand] else []) ++
-  (if c ≠ .identify ∧ c ≠ .unknown ∧ !conf.tlsGate then [.tlsRequired] else []) ++
-  (if !stateOk c s.st then [.wrongState] else []) ++
-  (if c = .sub ∧ s.hbNs ≤ 0 then [.heartbeatsOff] else []) ++
-  (match c with
-   | .sub => if ps.length < 3 then [.params] else []
-   | .pub => if ps.length < 2 then [.params] else []
-   | .mpub => if ps.length < 2 then [.params] else []
-   | .dpub => if ps.length < 3 then [.params] else []
-   | .fin => if ps.length < 2 then [.params] else []
-   | .touch => if ps.length < 2 then [.params] else []
-   | .req => if ps.length < 3 then [.params] else []
-   | .auth => if ps.length ≠ 1 then [.params] else []
-   | _ => []) ++
-  (match c, param ps 1 with
-   | .sub, some t => if isValidName t then [] else [.topicName]
-   | .pub, some t => if isValidName t then [] else [.topicName]
-   | .mpub, some t => if isValidName t then [] else [.topicName]
-   | .dpub, some t => if isValidName t then [] else [.topicName]
-   | .fin, some id => if id.length = 16 then [] else [.messageId]
-   | .req, some id => if id.length = 16 then [] else [.messageId]
-   | .touch, some id => if id.length = 16 then [] else [.messageId]
-   | .rdy, some n =>
-     (match byteToBase10 n with
-      | none => [.number]
-      | some v => if toInt64 v < 0 ∨ toInt64 v > conf.maxRdy then [.range] else [])
-   | _, _ => []) ++
-  (match c, param ps 1 with
-   | .rdy, none => if 1 > conf.maxRdy then [.range] else []
-   | _, _ => []) ++
-  (match c, param ps 2 with
-   | .sub, some ch => if isValidName ch then [] else [.channelName]
-   | .dpub, some n =>
-     (match byteToBase10 n with
-      | none => [.number]
-      | some v => if msToDuration v < 0 ∨ msToDuration v > conf.maxReqTimeoutNs then [.range] else [])
-   | .req, some n => if (byteToBase10 n).isNone then [.number] else []
-   | _, _ => []) ++
-  (match c with
-   | .identify =>
-     if bodyOk conf.maxBodySize rest then
-       (match conf.decode (bodyOf rest) with
-        | none => [.bodyContent]
-        | some d =>
-          (if (applyIdentify conf s d).isNone then [.bodyContent] else []) ++
-          (if d.featureNegotiation ∧ (conf.deflateEnabled && d.deflate) ∧ (conf.snappyEnabled && d.snappy)
-           then [.compression] else []))
-     else [.bodySize]
-   | .auth => if bodyOk conf.maxBodySize rest then [] else [.bodySize]
-   | .pub => if bodyOk conf.maxMsgSize rest then [] else [.bodySize]
-   | .dpub => if bodyOk conf.maxMsgSize rest then [] else [.bodySize]
-   | .mpub =>
-     (match readLen rest with
-      | none => [.bodySize]
-      | some (n, r) =>
-        if n ≤ 0 ∨ n > conf.maxBodySize then [.bodySize]
-        else match Mpub.readMPUB conf.maxMsgSize conf.maxBodySize r with
-          | .err code => [.batch code]
-          | _ => [])
-   | _ => []) ++
-  (match c with
-   | .sub => (match conf.authGate with | some code => [.auth code] | none => [])
-   | .pub => (match conf.authGate with | some code => [.auth code] | none => [])
-   | .mpub => (match conf.authGate with | some code => [.auth code] | none => [])
-   | .dpub => (match conf.authGate with | some code => [.auth code] | none => [])
-   | .auth =>
-     (match conf.authCmd with
-      | .alreadySet => [.auth .E_INVALID]
-      | .disabled => [.auth .E_AUTH_DISABLED]
-      | .failed => [.auth .E_AUTH_FAILED]
-      | .noAuthz => [.auth .E_UNAUTHORIZED]
-      | .ok => [])
-   | _ => []) ++
-  (match c, param ps 1 with
-   | .fin, some id => if id ∈ s.inflight then [] else [.notInFlight]
-   | .req, some id => if id ∈ s.inflight then [] else [.notInFlight]
-   | .touch, some id => if id ∈ s.inflight then [] else [.notInFlight]
-   | _, _ => [])
+def isPublish (c : Cmd) : Bool := c == .pub || c == .mpub || c == .dpub
+def takesTopic (c : Cmd) : Bool := c == .sub || isPublish c
+def takesId (c : Cmd) : Bool := c == .fin || c == .req || c == .touch
 
-/-- Allowed (reply, closes?) pairs for a command instance. RDY in state `closing` is ignored
-whatever its argument (documented: "ignoring RDY after CLS"). -/
+/-- Minimum number of space-separated fields (command included). -/
+def minParams : Cmd → Nat
+  | .sub => 3 | .pub => 2 | .mpub => 2 | .dpub => 3 | .fin => 2 | .touch => 2 | .req => 3 | _ => 1
+
+def allCodes : List Code :=
+  [.E_INVALID, .E_BAD_BODY, .E_BAD_TOPIC, .E_BAD_CHANNEL, .E_BAD_MESSAGE, .E_PUB_FAILED, .E_MPUB_FAILED,
+   .E_DPUB_FAILED, .E_FIN_FAILED, .E_REQ_FAILED, .E_TOUCH_FAILED, .E_SUB_FAILED, .E_IDENTIFY_FAILED,
+   .E_AUTH_DISABLED, .E_AUTH_FAILED, .E_UNAUTHORIZED, .E_AUTH_FIRST, .E_AUTH_ERROR, .E_BAD_PROTOCOL]
+
+/-- Every defect there is. -/
+def allDefects : List Defect :=
+  [.unknownCommand, .tlsRequired, .wrongState, .heartbeatsOff, .params, .topicName, .channelName, .number,
+   .range, .messageId, .bodySize, .bodyContent, .compression, .notInFlight] ++
+  allCodes.map .batch ++ allCodes.map .auth
+
+/-- The size field and batch of an MPUB, judged from the bytes that follow the command line. -/
+def mpubSizeOk (conf : Conf) (rest : Bytes) : Bool :=
+  match readLen rest with
+  | none => false
+  | some (n, _) => decide (1 ≤ n) && decide (n ≤ conf.maxBodySize)
+
+def mpubBatch (conf : Conf) (rest : Bytes) : Mpub.Res :=
+  match readLen rest with
+  | none => .err .E_BAD_BODY
+  | some (_, r) => Mpub.readMPUB conf.maxMsgSize conf.maxBodySize r
+
+/-- Does the command instance (`ps` = the split line, `rest` = the bytes after it) have defect `d`?
+Each defect is judged on its own — no order of checks. -/
+def hasDefect (conf : Conf) (s : ConnState) (ps : List Bytes) (rest : Bytes) (c : Cmd) : Defect → Bool
+  | .unknownCommand => c == .unknown
+  | .tlsRequired => c != .identify && !conf.tlsGate
+  | .wrongState => !stateOk c s.st
+  | .heartbeatsOff => c == .sub && decide (s.hbNs ≤ 0)
+  | .params => decide (ps.length < minParams c) || (c == .auth && decide (ps.length ≠ 1))
+  | .topicName =>
+    takesTopic c && (match param ps 1 with
+      | some t => !isValidName t
+      | none => false)
+  | .channelName =>
+    c == .sub && (match param ps 2 with
+      | some ch => !isValidName ch
+      | none => false)
+  | .number =>
+    (c == .rdy && (match param ps 1 with
+      | some n => (byteToBase10 n).isNone
+      | none => false)) ||
+    ((c == .dpub || c == .req) && (match param ps 2 with
+      | some n => (byteToBase10 n).isNone
+      | none => false))
+  | .range =>
+    (c == .rdy && (match param ps 1 with
+      | some n =>
+        (match byteToBase10 n with
+         | some v => decide (toInt64 v < 0 ∨ toInt64 v > conf.maxRdy)
+         | none => false)
+      | none => decide (1 > conf.maxRdy))) ||
+    (c == .dpub && (match param ps 2 with
+      | some n =>
+        (match byteToBase10 n with
+         | some v => decide (msToDuration v < 0 ∨ msToDuration v > conf.maxReqTimeoutNs)
+         | none => false)
+      | none => false))
+  | .messageId =>
+    takesId c && (match param ps 1 with
+      | some id => decide (id.length ≠ 16)
+      | none => false)
+  | .bodySize =>
+    ((c == .identify || c == .auth) && !bodyOk conf.maxBodySize rest) ||
+    ((c == .pub || c == .dpub) && !bodyOk conf.maxMsgSize rest) ||
+    (c == .mpub && !mpubSizeOk conf rest)
+  | .bodyContent =>
+    c == .identify && bodyOk conf.maxBodySize rest &&
+      (match conf.decode (bodyOf rest) with
+       | none => true
+       | some d => (applyIdentify conf s d).isNone)
+  | .batch code =>
+    c == .mpub && mpubSizeOk conf rest && (mpubBatch conf rest == .err code)
+  | .compression =>
+    c == .identify && bodyOk conf.maxBodySize rest &&
+      (match conf.decode (bodyOf rest) with
+       | none => false
+       | some d => d.featureNegotiation && (conf.deflateEnabled && d.deflate) && (conf.snappyEnabled && d.snappy))
+  | .auth code =>
+    ((takesTopic c) && (conf.authGate == some code)) ||
+    (c == .auth && (match conf.authCmd with
+      | .alreadySet => code == .E_INVALID
+      | .disabled => code == .E_AUTH_DISABLED
+      | .failed => code == .E_AUTH_FAILED
+      | .noAuthz => code == .E_UNAUTHORIZED
+      | .ok => false))
+  | .notInFlight =>
+    takesId c && (match param ps 1 with
+      | some id => !(s.inflight.contains id)
+      | none => false)
+
+/-- Every defect of a command instance. -/
+def defects (conf : Conf) (s : ConnState) (ps : List Bytes) (rest : Bytes) : List Defect :=
+  allDefects.filter (hasDefect conf s ps rest (classify (ps.headD [])))
+
+/-- The (reply, closes?) pairs the protocol definition allows for a command instance. RDY in state
+`closing` is ignored whatever its argument ("ignoring RDY after CLS"). -/
+def allowed (conf : Conf) (s : ConnState) (ps : List Bytes) (rest : Bytes) : List (Option Reply × Bool) :=
+  if classify (ps.headD []) = .rdy ∧ s.st = .closing ∧ conf.tlsGate = true then [(none, false)]
+  else if defects conf s ps rest = [] then
+    [(successReply conf (classify (ps.headD [])) (conf.decode (bodyOf rest)), false)]
+  else
+    (defects conf s ps rest).map
+      (fun d => (some (.err (codeOf (classify (ps.headD [])) d).1), (codeOf (classify (ps.headD [])) d).2))
+
+/-- `answer`: the reply and the closing of the connection are among the allowed ones. -/
 def answer (conf : Conf) (s : ConnState) (ps : List Bytes) (rest : Bytes)
     (reply : Option Reply) (closes : Bool) : Prop :=
-  let c := classify (ps.headD [])
-  if c = .rdy ∧ s.st = .closing ∧ conf.tlsGate then reply = none ∧ closes = false
-  else if defects conf s ps rest = [] then
-    reply = successReply conf c (conf.decode (bodyOf rest)) ∧ closes = false
-  else
-    ∃ d ∈ defects conf s ps rest, reply = some (.err (codeOf c d).1) ∧ closes = (codeOf c d).2
+  (reply, closes) ∈ allowed conf s ps rest
 
 end Nsq.Spec.ProtoSpec
